@@ -287,6 +287,11 @@ class CasXmiDeserializer:
                         target_id = int(value)
                         fs[feature_name] = feature_structures[target_id]
 
+        # The byte array of a sofa is given as a reference as well
+        for sofa in sofas.values():
+            if sofa.sofaArray is not None:
+                sofa.sofaArray = feature_structures[int(sofa.sofaArray)]
+
         cas = Cas(typesystem=typesystem, lenient=lenient)
 
         # Map from offsets in UIMA UTF-16 based offsets to Unicode codepoints. This concerns every annotation, also
@@ -311,6 +316,8 @@ class CasXmiDeserializer:
             view.get_sofa()._sofaString = sofa.sofaString
             view.get_sofa()._offset_converter = sofa._offset_converter
             view.sofa_mime = sofa.mimeType
+            view.sofa_uri = sofa.sofaURI
+            view.sofa_array = sofa.sofaArray
 
             # If a sofa has no members, then UIMA might omit the view. In that case,
             # we create an empty view for it.
@@ -530,7 +537,15 @@ class CasXmiSerializer:
         self._serialize_cas_null(root)
 
         # Find all fs, even the ones that are not directly added to a sofa
-        for fs in sorted(cas._find_all_fs(), key=lambda a: a.xmiID):
+        # Find all fs, also the byte arrays which hold the data of a sofa
+        feature_structures = list(cas._find_all_fs())
+        for sofa in cas.sofas:
+            if sofa.sofaArray is not None and not any(fs is sofa.sofaArray for fs in feature_structures):
+                if sofa.sofaArray.xmiID is None:
+                    sofa.sofaArray.xmiID = cas._get_next_xmi_id()
+                feature_structures.append(sofa.sofaArray)
+
+        for fs in sorted(feature_structures, key=lambda a: a.xmiID):
             self._serialize_feature_structure(cas, root, fs)
 
         for sofa in cas.sofas:
@@ -709,6 +724,10 @@ class CasXmiSerializer:
             elem.attrib["mimeType"] = str(sofa.mimeType)
         if sofa.sofaString is not None:
             elem.attrib["sofaString"] = str(sofa.sofaString)
+        if sofa.sofaURI is not None:
+            elem.attrib["sofaURI"] = str(sofa.sofaURI)
+        if sofa.sofaArray is not None:
+            elem.attrib["sofaArray"] = str(sofa.sofaArray.xmiID)
 
     def _serialize_view(self, root: etree.Element, view: View):
         name = etree.QName(self._nsmap["cas"], "View")
